@@ -32,6 +32,8 @@ func runC11(c *Check, tier string) {
 	ruleRootPackageCanonical(c, "R11i", 3)
 	ruleR11j(c)
 	ruleR11k(c)
+	ruleR11l(c)
+	ruleEveryLoadedPackageRegistered(c, "R11m")
 }
 
 func isNoReturnCall(in ssa.Instruction) bool {
@@ -1000,5 +1002,238 @@ func ruleR11k(c *Check) {
 	})
 	for _, f := range []string{"Inputs", "UnresolvedInputs"} {
 		c.Require(back.Has(fk("model.Target", f)), "R11k", "escape-check-covers/"+f, "Target."+f+" flows into the escape predicate", "Target."+f+" never reaches the escape predicate: "+map[string]string{"Inputs": "a literal input that points outside the package is accepted", "UnresolvedInputs": "an input glob that points outside the package (../lib/*.txt) resolves to nothing, is invisible in the resolved list and is accepted"}[f], c.P.Pos(ctc.Pos()))
+	}
+}
+
+// R11l: the package-escape test judges what the user wrote. Between the declaration and Target.Inputs only glob
+// patterns are expanded; a literal input reaches the resolved list as it was declared (or lexically cleaned).
+// Any other rewriting of a literal ("./../x" -> "x", say) can turn an escaping path into an innocent one before
+// the test sees it.
+func ruleR11l(c *Check) {
+	c.Rule("R11l", "in the input resolver a literal (glob-free) input is appended to the resolved list unchanged, or after filepath.Clean / path.Clean only", 1)
+	var res *ssa.Function
+	for _, fn := range c.P.Funcs {
+		if engine.InPackage(fn, "loading") && fn.Parent() == nil && len(callsNamed(fn, "github.com/bmatcuk/doublestar/v4.Glob")) > 0 {
+			// the one that handles the inputs (not only the exclusions): it tests for glob characters
+			if res == nil || len(callsNamed(fn, "strings.ContainsAny")) > 0 {
+				res = fn
+			}
+		}
+	}
+	if res == nil {
+		c.Unknown("R11l", "literal-inputs-unchanged", "anchor-unresolved: no function of internal/loading calls doublestar.Glob", "-")
+		return
+	}
+	isElem := func(v ssa.Value) bool {
+		// element of a range over a []string parameter
+		ex, ok := v.(*ssa.Extract)
+		if !ok {
+			if ld, isLd := v.(*ssa.UnOp); isLd && ld.Op == token.MUL {
+				if ia, isIA := ld.X.(*ssa.IndexAddr); isIA {
+					for _, o := range engine.Origins(ia.X) {
+						if _, isP := o.(*ssa.Parameter); isP {
+							return true
+						}
+					}
+				}
+			}
+			return false
+		}
+		nx, ok := ex.Tuple.(*ssa.Next)
+		if !ok {
+			return false
+		}
+		rg, ok := nx.Iter.(*ssa.Range)
+		if !ok {
+			return false
+		}
+		for _, o := range engine.Origins(rg.X) {
+			if _, isP := o.(*ssa.Parameter); isP {
+				return true
+			}
+		}
+		return false
+	}
+	var unchanged func(v ssa.Value, d int) bool
+	unchanged = func(v ssa.Value, d int) bool {
+		if d > 4 {
+			return false
+		}
+		if isElem(v) {
+			return true
+		}
+		switch x := v.(type) {
+		case *ssa.Phi:
+			for _, e := range x.Edges {
+				if !unchanged(e, d+1) {
+					return false
+				}
+			}
+			return len(x.Edges) > 0
+		case *ssa.Call:
+			switch engine.CalleeName(x) {
+			case "path/filepath.Clean", "path.Clean", "path/filepath.ToSlash":
+				return len(x.Call.Args) == 1 && unchanged(x.Call.Args[0], d+1)
+			}
+		}
+		return false
+	}
+	n := 0
+	for _, b := range res.Blocks {
+		for _, in := range b.Instrs {
+			call, ok := in.(*ssa.Call)
+			if !ok {
+				continue
+			}
+			bi, ok := call.Call.Value.(*ssa.Builtin)
+			if !ok || bi.Name() != "append" || len(call.Call.Args) != 2 {
+				continue
+			}
+			// single-element appends: the second argument is a slice of a fresh one-element array
+			sl, ok := call.Call.Args[1].(*ssa.Slice)
+			if !ok {
+				continue
+			}
+			arr, ok := sl.X.(*ssa.Alloc)
+			if !ok || arr.Referrers() == nil {
+				continue
+			}
+			for _, ref := range *arr.Referrers() {
+				ia, ok := ref.(*ssa.IndexAddr)
+				if !ok || ia.Referrers() == nil {
+					continue
+				}
+				for _, r2 := range *ia.Referrers() {
+					st, ok := r2.(*ssa.Store)
+					if !ok || !isStringType(st.Val.Type()) {
+						continue
+					}
+					if !derivesFromElem(st.Val, isElem, 0) {
+						continue // not a declared input (an element of a local list, a glob match)
+					}
+					n++
+					c.Require(unchanged(st.Val, 0), "R11l", "literal-inputs-unchanged/"+c.P.FuncName(res)+"#"+strconv.Itoa(n), "the literal input is appended as declared", "a literal input is rewritten before it is appended to the resolved inputs: the constraint check (absolute path, escape from the package) then judges the rewritten spelling, so a path such as ./../lib/secret.txt can lose its leading ../ and be accepted", c.P.InstrPos(st))
+				}
+			}
+		}
+	}
+	if n == 0 {
+		c.OK("R11l", "literal-inputs-unchanged", "the input resolver appends no value computed from a declared input (literals are not handled element by element here)", c.P.Pos(res.Pos()))
+	}
+}
+
+// derivesFromElem: v is computed (through phis, calls, string operations) from a value isElem accepts.
+func derivesFromElem(v ssa.Value, isElem func(ssa.Value) bool, d int) bool {
+	if v == nil || d > 6 {
+		return false
+	}
+	if isElem(v) {
+		return true
+	}
+	switch v.(type) {
+	case *ssa.Next, *ssa.Range, *ssa.Lookup, *ssa.IndexAddr:
+		return false // an element taken out of some other container is not the declared input itself
+	}
+	in, ok := v.(ssa.Instruction)
+	if !ok {
+		return false
+	}
+	for _, op := range in.Operands(nil) {
+		if op != nil && *op != nil && derivesFromElem(*op, isElem, d+1) {
+			return true
+		}
+	}
+	return false
+}
+
+// R11m: every package file that loads is part of the graph that is validated. In the loader goroutines, once a
+// package was enriched successfully the iteration registers it in the shared table (insert or merge) — it is not
+// dropped by a shortcut (an "empty" package still carries aliases that other packages depend on, and duplicate
+// labels are only found among registered packages).
+func ruleEveryLoadedPackageRegistered(c *Check, rule string) {
+	c.Rule(rule, "in the loader's per-file loop, from the successful return of the enrichment every path to the next iteration passes an insert into the package table, a merge into it, or the recording of an error", 1)
+	isPkgProducer := func(s ssa.CallInstruction) bool {
+		sig := s.Common().Signature()
+		if sig.Results().Len() < 2 || engine.ErrResultIndex(sig) < 0 {
+			return false
+		}
+		h := s.Common().StaticCallee()
+		if h == nil || !engine.InPackage(h, "loading") {
+			return false
+		}
+		for i := 0; i < sig.Results().Len(); i++ {
+			if engine.TypeKey(sig.Results().At(i).Type()) == "model.Package" {
+				return true
+			}
+		}
+		return false
+	}
+	n := 0
+	for _, fn := range c.P.Funcs {
+		if !engine.InPackage(fn, "loading") || fn.Parent() == nil {
+			continue // the per-file loop lives in a goroutine literal
+		}
+		for _, s := range engine.SitesIn(fn) {
+			if !isPkgProducer(s) {
+				continue
+			}
+			lp := engine.LoopOf(s)
+			if lp == nil {
+				continue
+			}
+			n++
+			registers := func(in ssa.Instruction) bool {
+				switch x := in.(type) {
+				case *ssa.MapUpdate:
+					m, ok := x.Map.Type().Underlying().(*types.Map)
+					return ok && engine.TypeKey(m.Elem()) == "model.Package"
+				case ssa.CallInstruction:
+					cc := x.Common()
+					// merge(from, into *model.Package), a registry method taking the package, or an error recorder
+					pk := 0
+					for _, a := range cc.Args {
+						if engine.TypeKey(a.Type()) == "model.Package" {
+							pk++
+						}
+						if types.Identical(a.Type(), types.Universe.Lookup("error").Type()) && cc.Signature().Results().Len() == 0 {
+							return true
+						}
+					}
+					if pk >= 1 && x != s {
+						for _, a := range cc.Args {
+							for _, o := range engine.Origins(a) {
+								if call, _ := engine.CallOf(o); call == s {
+									return true
+								}
+							}
+						}
+					}
+				}
+				return false
+			}
+			errIdx := engine.ErrResultIndex(s.Common().Signature())
+			failed := engine.CutEdgesWhere(func(a engine.Atom) bool {
+				for _, o := range engine.Origins(a.V) {
+					if call, i := engine.CallOf(o); call == s {
+						if i == errIdx && a.Op == "nonnil" {
+							return true
+						}
+						// "this file is not a package" answered by the same call (a bool result)
+						if i != errIdx && (a.Op == "false" || a.Op == "true") {
+							if b, ok := a.V.Type().Underlying().(*types.Basic); ok && b.Kind() == types.Bool && a.Op == "false" {
+								return true
+							}
+						}
+					}
+				}
+				return false
+			})
+			toHeader := func(in ssa.Instruction) bool { return in == lp.Header.Instrs[0] }
+			reach, _ := engine.PathExists(fn, s, toHeader, engine.PathQuery{CutInstr: registers, CutEdge: failed, Shallow: true})
+			c.Require(!reach, rule, "loaded-package-registered/"+c.P.FuncName(engine.TopFunc(fn)), "a successfully enriched package is always inserted or merged", "after a package file was loaded and enriched successfully the loop can go on to the next file without registering it (a `continue` for packages that look empty, say): a BUILD file that only declares aliases disappears — dependencies on those aliases are reported missing in a valid workspace, and alias cycles, dangling aliases and duplicate labels in it are never seen by the validators", c.P.InstrPos(s))
+		}
+	}
+	if n == 0 {
+		c.Unknown(rule, "loaded-package-registered", "no per-file loop that enriches packages found in the loader goroutines", "-")
 	}
 }
